@@ -6,8 +6,11 @@ import (
 
 	"go.lsp.dev/protocol"
 
+	"github.com/shopspring/decimal"
+
 	"github.com/juev/hledger-lsp/internal/ast"
 	"github.com/juev/hledger-lsp/internal/lsputil"
+	"github.com/juev/hledger-lsp/internal/parser"
 )
 
 const defaultIndentSize = 4
@@ -373,6 +376,11 @@ func formatPostingWithOpts(posting *ast.Posting, alignment AlignmentInfo, commod
 	return sb.String()
 }
 
+func readsBackAs(number string, quantity decimal.Decimal) bool {
+	parsed, err := parser.ParseQuantity(number)
+	return err == nil && parsed.Equal(quantity)
+}
+
 func writeAmountWithSign(sb *strings.Builder, amount *ast.Amount, commodityFormats map[string]NumberFormat) {
 	qty := formatAmountQuantity(amount, commodityFormats)
 
@@ -402,12 +410,19 @@ func formatAmountQuantity(amount *ast.Amount, commodityFormats map[string]Number
 	}
 	if commodityFormats != nil {
 		// First try specific commodity format
-		if format, ok := commodityFormats[amount.Commodity.Symbol]; ok {
-			return FormatNumber(amount.Quantity, format)
+		format, ok := commodityFormats[amount.Commodity.Symbol]
+		if !ok {
+			// Then try default format (stored under empty key)
+			format, ok = commodityFormats[""]
 		}
-		// Then try default format (stored under empty key)
-		if format, ok := commodityFormats[""]; ok {
-			return FormatNumber(amount.Quantity, format)
+		if ok {
+			formatted := FormatNumber(amount.Quantity, format)
+			// A display format must never change the quantity: when the formatted number does
+			// not read back as the same value (fewer decimals than the amount carries, or a
+			// notation the parser reads differently) the amount stays as it was written.
+			if readsBackAs(formatted, amount.Quantity) {
+				return formatted
+			}
 		}
 	}
 	if amount.RawQuantity != "" {
